@@ -12,6 +12,10 @@ mod find;
 mod leap;
 mod zonecons;
 mod dtinv;
+#[cfg(feature = "tz-alloc")]
+mod tzstr;
+#[cfg(feature = "tz-alloc")]
+mod tzif;
 
 use common::*;
 
@@ -41,6 +45,10 @@ fn main() {
             "leap" => leap::replay(&v["case"], &args),
             "zonecons" => zonecons::replay(&v["case"], &args),
             "dtinv" => dtinv::replay(&v["case"], &args),
+            #[cfg(feature = "tz-alloc")]
+            "tzstr" => tzstr::replay(&v["case"], &args),
+            #[cfg(feature = "tz-alloc")]
+            "tzif" => tzif::replay(&v["case"], &args),
             _ => {
                 eprintln!("no replay for engine {}", args.engine);
                 2
@@ -59,6 +67,10 @@ fn main() {
             "leap" => leap::run(&args),
             "zonecons" => zonecons::run(&args),
             "dtinv" => dtinv::run(&args),
+            #[cfg(feature = "tz-alloc")]
+            "tzstr" => tzstr::run(&args),
+            #[cfg(feature = "tz-alloc")]
+            "tzif" => tzif::run(&args),
             e => {
                 eprintln!("unknown engine {e}");
                 2
